@@ -96,7 +96,7 @@ REQUIRED_CLASSES = ['number-types', 'op:refused-date', 'op:other-object', 'ctor:
 # ---- alphabets -------------------------------------------------------------------------------------------------
 CTOR_DATES = [None, 2015.0, 2019.999, 2020.0, 2022.5, 2024.999, 2025.0, 'day:2021-07-01']
 CTOR_DATES_T = CTOR_DATES + [2022.449]
-CTOR_PLACES = [None, (0.0, 20.0, 0.0), (10.0, 0.0, 0.0), (0.0, 0.0, 0.0), (10.0, 20.0, 0.0), (90.0, 0.0, 0.0)]
+CTOR_PLACES = [None, (0.0, 20.0, 0.0), (10.0, 0.0, 0.0), (0.0, 0.0, 0.0), (10.0, 20.0, 0.0), (90.0, 0.0, 0.0), (10.0, 20.0, -0.5)]      # (heights down to -1 km are places of the model)
 PLACES = [(0.0, 20.0, 0.0), (10.0, 0.0, 0.0), (10.0, 0.0, 400.0), (90.0, 0.0, 0.0), (-90.0, 50.0, 0.0), (45.0, 180.0, 0.0), (45.0, -180.0, 0.0)]   # (10, 0) at two heights
 PLACES_MENU = [(10.0, 20.0, 0.0), (70.0, -100.0, 0.0), (0.0, 0.0, 0.0), (-33.5, 151.25, 100.0), (-60.0, -70.0, 0.5)]
 DATES = [2019.999, 2022.5, 2025.0, 'day:2021-07-01', 'day:2019-12-31', 'day:2020-01-01', None, 'omit']     # 2019.999 falls on the calendar day 2020-01-01 (other model file)
